@@ -232,7 +232,16 @@ def apply_mutation(m, envs, world2, cfgs, slice_holder):
         elif kind == "cfg:t1.queue_budget":
             cfg["t1"]["queue_budget"] = 1 if cfg["t1"].get("queue_budget", 10000) != 1 else 10000
         elif kind == "cfg:t1.decay":
-            cfg["t1"]["decay"] = {"mode": "attn_quad", "alpha": 5.0} if cfg["t1"].get("decay", {}).get("mode") != "attn_quad" else {"mode": "exp_floor", "rate": 0.6, "floor": 0.05}
+            newd = {"mode": "attn_quad", "alpha": 5.0} if cfg["t1"].get("decay", {}).get("mode") != "attn_quad" else {"mode": "exp_floor", "rate": 0.6, "floor": 0.05}
+            if m["i"] % 2 and isinstance(cfg["t1"].get("decay"), dict):
+                # edited in place on the live configuration (same mapping objects), as a tuning console would
+                cfg["t1"]["decay"].clear()
+                cfg["t1"]["decay"].update(newd)
+                em = cfg["t1"].get("edge_type_mult")
+                if isinstance(em, dict):
+                    em["supports"] = 0.2 if em.get("supports", 1.0) != 0.2 else 1.0
+            else:
+                cfg["t1"]["decay"] = newd
     if kind == "cfg:now":
         slice_holder["now_shift_days"] = 400 if not slice_holder.get("now_shift_days") else 0
     if kind == "cfg:now-same-day":
